@@ -32,7 +32,7 @@ func (g *OGen) str() string {
 		return []string{"a,b:1", "{x}", "[1,2]", "k|v", "1", "true", "é∑"}[g.r.Intn(7)]
 	default:
 		if g.Wide {
-			return fmt.Sprintf("w%d", g.r.Intn(400))
+			return fmt.Sprintf("w%d", g.r.Intn(3000))
 		}
 		return fmt.Sprintf("v%d", g.r.Intn(5))
 	}
